@@ -352,9 +352,12 @@ func childMain(target string, seed int64, batch, from, n int, scratch string, so
 		if fx.shards < 1 {
 			fx.shards = 1
 		}
-		stMu.Lock()
-		st.Extra["fixed_series_length"] = int64(series.Len())
-		stMu.Unlock()
+		if fx.shard == 0 && from == 0 {
+			// Reported once per target (the counters of the shards are added up by the parent).
+			stMu.Lock()
+			st.Extra["fixed_series_length"] = int64(series.Len())
+			stMu.Unlock()
+		}
 	}
 
 	prog := openProgress(progressPath(scratch, target, batch))
